@@ -23,7 +23,7 @@ def _has_helper():
 
 
 if _has_helper():
-    _HELPER = {'kind': 'fn', 'file': E, 'container': r'^impl PdfError$', 'name': 'is_missing_object', 'props': ['C18'],
+    _HELPER = {'kind': 'fn', 'file': E, 'container': r'^impl PdfError$', 'name': 'is_missing_object', 'props': ['C18', 'C12'],
                'decreases': '*self',
                'ensures': [('missing_object_is_root_cause', 'r == is_missing(*self)')]}
 else:
